@@ -284,8 +284,8 @@ impl Scenario for C29 {
     }
     fn default_runs(tier: Tier) -> u64 {
         match tier {
-            Tier::Quick => 40_000,
-            Tier::Thorough => 4_000_000,
+            Tier::Quick => 80_000,
+            Tier::Thorough => 40_000_000,
         }
     }
     fn real_components() -> &'static [&'static str] {
